@@ -215,6 +215,7 @@ func (c *FnCtx) callMods(fr *Frame, cc *ssa.CallCommon, ms *loopModSet, depth in
 	}
 	if ct := c.eng.contractFor(callee); ct != nil && !ct.Inline {
 		c.contractMods(ct, ms)
+		c.effectsMods(ct, callee, cc, ms, depth)
 		return
 	}
 	if h := c.eng.externHandler(callee); h != nil {
@@ -253,6 +254,9 @@ func (c *FnCtx) contractMods(ct *FuncContract, ms *loopModSet) {
 		if m.Text == "*" {
 			ms.all = true
 			continue
+		}
+		if effectsParam(&m) != "" {
+			continue // added by effectsMods where the call site is known
 		}
 		if m.Text == "atomic(*)" {
 			ms.atomics = true
@@ -425,4 +429,43 @@ func rootedAtLocalAlloc(a ssa.Value) bool {
 		}
 	}
 	return false
+}
+
+// effectsParam: `modifies effects(p)`: everything the function value passed for parameter p
+// may write (the callee applies it; the write set is computed from the closure's body).
+func effectsParam(m *Clause) string {
+	if call, ok := m.Expr.(*ast.CallExpr); ok {
+		if id, ok := call.Fun.(*ast.Ident); ok && id.Name == "effects" && len(call.Args) == 1 {
+			if a, ok := call.Args[0].(*ast.Ident); ok {
+				return a.Name
+			}
+		}
+	}
+	return ""
+}
+
+func (c *FnCtx) effectsMods(ct *FuncContract, callee *ssa.Function, cc *ssa.CallCommon, ms *loopModSet, depth int) {
+	for i := range ct.Modifies {
+		p := effectsParam(&ct.Modifies[i])
+		if p == "" {
+			continue
+		}
+		found := false
+		for k, prm := range callee.Params {
+			if prm.Name() != p || k >= len(cc.Args) {
+				continue
+			}
+			switch a := cc.Args[k].(type) {
+			case *ssa.MakeClosure:
+				c.fnMods(a.Fn.(*ssa.Function), ms, depth+1)
+				found = true
+			case *ssa.Function:
+				c.fnMods(a, ms, depth+1)
+				found = true
+			}
+		}
+		if !found {
+			ms.all = true
+		}
+	}
 }
